@@ -88,7 +88,7 @@ def model_runs(ctx):
         cfg += "CHECK_DEADLOCK FALSE\n"
         runs.append({"label": label, "module": module, "fmts": set(fmts), "cfg": cfg, "workers": workers})
 
-    add("Adler32", "Adler32", ["adler32"], ["AdlerMaxLen = %d" % (5 if t else 3), "AdlerAlphabet = %s" % (A5 if t else A4)],
+    add("Adler32", "Adler32", ["adler32"], ["AdlerMaxLen = %d" % (4 if t else 3), "AdlerAlphabet = %s" % (A5 if t else A4)],
         ["StreamingEqualsClosed", "SplitIndependent", "Export"])
     add("Crc32", "Crc", ["crc32"], ["Poly <- PolyCrc32", "CrcMaxLen = %d" % (4 if t else 3), "CrcAlphabet = %s" % (A5 if t else A4), 'CrcName = "crc32"'],
         ["SplitIndependent", "Linear", "FastEqualsDef", "Export"], workers=4 if t else 2)
@@ -111,7 +111,7 @@ def model_runs(ctx):
         add("ZlibFrame", "ZlibFrame", ["zlib"], ["ZMaxBlocks = 1", "ZPads = {0}", "CInfos = {0, 7}", "FLevels = {0, 2}", "Dicts <- DictsSome"], ["RoundTrip", "Export"])
         add("GzipFrame", "GzipFrame", ["gzip"], ["GMaxBlocks = 1", "GPads = {0}", "FlagSets1 <- AllFlagSets", "FlagSets2 = {{}, {\"FTEXT\", \"FHCRC\", \"FEXTRA\", \"FNAME\", \"FCOMMENT\"}}",
                                                "GMaxMembers = 2", 'FieldVariants = {"short"}', "GDataSet <- GDataSmall"], ["RoundTrip", "Export"], workers=3)
-    lz = [(2, 6, 64, "none"), (3, 5, 64, "none"), (4, 4, 64, "none"), (2, 3, 16, "fill"), (3, 2, 16, "fill"), (8, 2, 16, "fill")] if t else \
+    lz = [(2, 6, 64, "none"), (3, 4, 64, "none"), (4, 3, 64, "none"), (2, 3, 16, "fill"), (3, 2, 16, "fill"), (8, 2, 16, "fill")] if t else \
          [(2, 5, 64, "none"), (3, 3, 64, "none"), (2, 2, 16, "fill")]
     for lw, mc, cap, pk in lz:
         add("LzwGif lw=%d codes<=%d %s" % (lw, mc, pk), "LzwGif", ["lzw"], ["LW = %d" % lw, "MaxCodes = %d" % mc, "BranchCap = %d" % cap, 'PrefixKind = "%s"' % pk],
@@ -599,7 +599,10 @@ def hasher_parts(rng, n, thorough):
         for b in (16, 32, 64, 5552):
             if n > b:
                 ks.add(b + rng.choice((-1, 0, 1)))
-        ps += ["%d,*" % k for k in sorted(ks) if 0 < k < n]
+        ks = sorted(k for k in ks if 0 < k < n)
+        if not thorough and len(ks) > 3:
+            ks = rng.sample(ks, 3)
+        ps += ["%d,*" % k for k in ks]
         for _ in range(3 if thorough else 1):               # seeded k-partitions
             m = rng.randrange(3, 9)
             ps.append(",".join(str(rng.randrange(1, max(2, min(n, 2 * n // m + 2)))) for _ in range(m)) + ",*")
@@ -689,7 +692,7 @@ def run(ctx):
             plan.add(e, "image", one(), layer="i")
             # bytes-per-pixel 3 and 4 have SIMD filter implementations: those cases also run on the build without them
             if fam == "fmt:pngfilter" and e["settings"]["bpp"] >= 3 and (thorough or rng.random() < 0.6):
-                plan.add(e, "image", plan.pick_class(e, n, 0, cap, image=True), exe="plain_nocpu", layer="i")
+                plan.add(e, "image", plan.pick_class(e, n, 0, cap, image=True) if thorough else one(), exe="plain_nocpu", layer="i")
         else:
             steps = [{"oracle": m["oracle"], "out_len": m["out_len"]} for m in e["chain"]] if e.get("chain") else None
             exe = "zdict" if e.get("dict") else "plain"
@@ -719,7 +722,7 @@ def run(ctx):
         steps = [{"oracle": m["oracle"], "out_len": m["out_len"]} for m in e["chain"]] if e.get("chain") else None
         exe = "zdict" if e.get("dict") else "plain"
         plan.add(e, kind, one(), exe=exe, steps=steps)
-        for k in range(2 if thorough else 1):
+        for k in range(1):
             c = plan.pick_class(e, n, e["out_len"], cap, image=(kind == "image"))
             plan.add(e, kind, c, exe=(exe if exe == "zdict" or (k == 0 and rng.random() < 0.5) else "plain_nocpu"), steps=steps)
     # fixed witnesses of the known findings
